@@ -1275,8 +1275,9 @@ class Flatten(DomainMapping):
             inner_iter = [inner]
         else:
             inner_iter = inner
-        for inner_v in inner_iter:
-            yield HashedValue(inner_v)
+        for position, inner_v in enumerate(inner_iter):
+            # an element is identified by where it sits, a collection that lists an equal element twice has two elements.
+            yield HashedValue(inner_v, id_=hash((value.id_, position, id(inner_v))))
 
     @property
     def _name_(self):
